@@ -18,7 +18,7 @@ MANIFEST = {
 }
 
 BOUNDS = {"quick": {"classes": 4, "depth": 3}, "thorough": {"classes": 4, "depth": 4}}
-TIME_BUDGET = {"quick": 300, "thorough": 2400}
+TIME_BUDGET = {"quick": 300, "thorough": 1200}
 STUBS = []
 ASSUMPTIONS = ["instances are kept alive by the caller (no garbage collection between steps)"]
 EXPLANATION = "bounded histories of constructions / targeted clears / global clears against a per-class reference"
